@@ -488,9 +488,9 @@ Print Assumptions C01_leaf_align_to_usize.
 From Coq Require Import List String.
 Import ListNotations.
 Theorem C01_leaf_reads_align :
-  Leaf.L_align_u32_align_to_args = ["self : u32"%string; "align : u32"%string] /\
-  Leaf.L_align_u32_aligned_to_args = ["self : u32"%string; "align : u32"%string] /\
-  Leaf.L_align_usize_align_to_args = ["self : usize"%string; "align : usize"%string] /\
-  Leaf.L_align_usize_aligned_to_args = ["self : usize"%string; "align : usize"%string].
+  Leaf.L_align_u32_align_to_args = ["self : u32"%string; "arg1 : u32"%string] /\
+  Leaf.L_align_u32_aligned_to_args = ["self : u32"%string; "arg1 : u32"%string] /\
+  Leaf.L_align_usize_align_to_args = ["self : usize"%string; "arg1 : usize"%string] /\
+  Leaf.L_align_usize_aligned_to_args = ["self : usize"%string; "arg1 : usize"%string].
 Proof. exact LeafAlign.leaf_reads_align. Qed.
 Print Assumptions C01_leaf_reads_align.
